@@ -369,7 +369,7 @@ pub fn check(tier: Tier) -> Check {
             "a response with the right transaction id from a different source counts as an answer (the statement binds answers to transaction ids, not to sources)",
         ],
         deciding: vec!["C03"],
-        streams: vec![Stream::new("hostile", tier.pick(200, 6000), scenario)],
+        streams: vec![Stream::new("hostile", tier.pick(600, 12_000), scenario)],
         require: vec![
             ("searches", tier.pick(500, 15_000)),
             ("concurrent_searches", tier.pick(400, 12_000)),
